@@ -299,7 +299,7 @@ func mutateDoc(r *Rng, text string) (string, string, bool) {
 
 // ---- arms
 
-var corruptKinds = []string{"flip", "overwrite", "trunc", "dupblock", "swapblocks", "swaptype", "hashinject", "prefix", "crlf", "hash-only", "double-hash", "pem-headers", "weird-key", "weird-key"}
+var corruptKinds = []string{"flip", "overwrite", "trunc", "dupblock", "swapblocks", "swaptype", "hashinject", "prefix", "crlf", "hash-only", "double-hash", "pem-headers", "weird-key", "weird-key", "linebreaks"}
 
 func genC20Corrupt(r *Rng) *Plan {
 	g := NewHistGen(r, "C20")
@@ -335,7 +335,7 @@ func genC20Corrupt(r *Rng) *Plan {
 	}
 	if r.Chance(1, 4) {
 		deg := map[string]string{"empty.yaml": "", "sep.yaml": "---\n", "nulldoc.yml": "null\n", "tab.json": "\t", "twodocs.yaml": "version: 1\nsubject: CN=a\n---\nversion: 1\nsubject: CN=b\n",
-			"sameprof.yaml": "version: 1\nname: root\n", "\u023a\u023a\u023a\u023a\u023a\u023a.yaml": "version: 1\nsubject: CN=grows when lower-cased\n", "\u023e\u023e\u023e\u023e\u023e.YML": "x", "bom.yaml": "\xef\xbb\xbfversion: 1\nsubject: CN=bom\n", "anchor.yaml": "a: &a [*a]\n", "deep.json": strings.Repeat("[", 2000) + strings.Repeat("]", 2000)}
+			"sameprof.yaml": "version: 1\nname: root\n", "\u023a\u023a\u023a\u023a\u023a\u023a.yaml": "version: 1\nsubject: CN=grows when lower-cased\n", "\u023e\u023e\u023e\u023e\u023e.YML": "x", "bom.yaml": "\xef\xbb\xbfversion: 1\nsubject: CN=bom\n", "anchor.yaml": "a: &a [*a]\n", "ls.yaml": "version: 1\u2028subject: CN=a\u2028extensions: [", "cr.yml": "version: 1\rsubject: CN=a\rextensions:\r  - {", "nel.yaml": "version: 1\u0085subject: CN=a\u0085: :", "ps.json": "{\"version\": 1,\u2029\"subject\": \"CN=a\",\u2029\"extensions\": [", "deep.json": strings.Repeat("[", 2000) + strings.Repeat("]", 2000)}
 		var dn []string
 		for k := range deg {
 			dn = append(dn, k)
